@@ -22,7 +22,8 @@ NOT covered: the constant `Kθ` of `defectBound` is rigorous but crude for large
 (triangle inequality over the coefficient pairs); the convergence of
 `rel['Psi4_lm']` itself also involves the spatial interpolation error of
 non-trilinear fields, which is not bounded here (T17 gives exactness on
-trilinear fields only); IEEE round-off is not modelled.
+trilinear fields only) — see Props/C20d.lean (T23–T31) for the interpolation
+error bound and the extraction end to end; IEEE round-off is not modelled.
 -/
 import AurelVerif.Props.C20b
 import AurelVerif.Lemmas.C20QuadAll
